@@ -578,3 +578,574 @@ def nontrivial(line, ans):
             if pre != "bot" and any(i not in ((None, None), None) for i in pre):
                 good += 1
     return good >= 1 and len(sums) >= 1
+
+
+# ====================================================================== C02: verdicts of the assertion checker
+# Programs WITH assertions (unique ids over all functions) and an oracle for the per-assertion verdict lists
+# printed by harness/inter.cpp with verd=1.
+#
+# What a verdict list is (read from the code):
+#   top-down (top_down_inter_analyzer, run_checker=true): every time the body of a function is analysed for a calling
+#     context that is not subsumed by a stored one, check_function runs intra_checker + assert_property_checker on
+#     the invariants of THAT context and appends its database to the global one (checks_db::operator+=): one letter
+#     per analysed calling context (and per fixpoint iterate of the caller that produced a new context), in analysis
+#     order.  A call whose context is subsumed by a stored context adds nothing (it is covered by that context's letter).
+#   bottom-up (bottom_up_inter_analyzer + inter_checker): every property checker visits every block of every function
+#     once, starting from the context-insensitive get_pre: one letter per assertion for the assertion checker (the
+#     division checker only records statements that carry debug information: none here).
+# Property C02 on a list L of assertion id (nothing is demanded when L is empty = '-'):
+#   some execution reaches id with a false condition  ==>  L contains W or E
+#   some execution reaches id                         ==>  L does not consist of U only
+# An assertion that fails stops the execution (the analyses treat assert as assume after the check).
+
+def _le(x, c): return "C le E 1 1 %d %d" % (x, -c)          # x <= c
+def _ge(x, c): return "C le E 1 -1 %d %d" % (x, c)          # x >= c
+def _lt(x, c): return "C lt E 1 1 %d %d" % (x, -c)          # x < c
+def _eq(x, c): return "C eq E 1 1 %d %d" % (x, -c)
+def _ne(x, c): return "C ne E 1 1 %d %d" % (x, -c)
+def _dle(x, y, c): return "C le E 2 1 %d -1 %d %d" % (x, y, -c)   # x - y <= c
+
+
+class _FB:
+    """function under construction"""
+
+    def __init__(self, ins, outs):
+        self.ins, self.outs = ins, outs
+        self.blocks = [[]]
+        self.edges = []
+        self.cur = 0
+
+    def emit(self, st):
+        self.blocks[self.cur].append(st)
+
+    def new(self):
+        self.blocks.append([])
+        return len(self.blocks) - 1
+
+    def seq(self):
+        n = self.new()
+        self.edges.append((self.cur, n))
+        self.cur = n
+
+
+def gen_vprogram(rng, recursive=False):
+    """-> (nv, funcs, nasserts).  Shapes: one callee reached from several callsites with argument constants on
+    both sides of the constants of its assertions (in both orders), assertions on returned values, assertions in
+    branches of the callee taken only for some arguments, assertions followed by statements that change the
+    asserted variable, unreachable callsites, callsites in diamonds and counting loops, chains main -> f -> g with g
+    also called directly, terminating direct/mutual recursion."""
+    nv = rng.randint(4, 6)
+    nf = rng.randint(2, 4)
+    K = rng.choice([0, 0, 1, 3, 5, 10])
+    ids = [0]
+
+    def near(d=2):
+        return K + rng.randint(-d, d)
+
+    sigs = [([], [])]
+    for f in range(1, nf):
+        nin = rng.choice([1, 1, 1, 2])
+        nout = rng.choice([0, 1, 1, 1])
+        vs = rng.sample(range(nv), nin + nout)
+        if rng.random() < 0.4:
+            vs = sorted(vs)
+        sigs.append((vs[:nin], vs[nin:]))
+
+    def rand_assert(x, others=()):
+        ids[0] += 1
+        r = rng.random()
+        c = near()
+        if r < 0.35: t = _le(x, c)
+        elif r < 0.6: t = _ge(x, c)
+        elif r < 0.7: t = _eq(x, c)
+        elif r < 0.8: t = _ne(x, c)
+        elif r < 0.88: t = _lt(x, c)
+        elif others:
+            y = rng.choice(list(others))
+            t = _dle(x, y, rng.randint(-2, 2)) if y != x else _le(x, c)
+        else: t = _le(x, c)
+        return "assert %s %d" % (t, ids[0])
+
+    def after_assert(B, x, writable):
+        """a statement after the assertion that changes what is known about x (the state at the end of the block
+        differs from the state at the assertion)"""
+        r = rng.random()
+        if r < 0.3:
+            B.emit("assume %s" % rng.choice([_le, _ge])(x, near()))
+        elif r < 0.55 and x in writable:
+            B.emit("assign %d E 0 %d" % (x, near()))
+        elif r < 0.7 and x in writable:
+            B.emit("arith add %d %d k %d" % (x, x, rng.choice([1, -1, 2, 5])))
+        elif r < 0.8 and x in writable:
+            B.emit("havoc %d" % x)
+
+    def set_arg(B, x, src=None):
+        """give the caller variable x a value / a range near K"""
+        r = rng.random()
+        if src is not None and r < 0.25:
+            B.emit("arith add %d %d k %d" % (x, src, rng.choice([0, 1, -1, 2])))
+        elif r < 0.65:
+            B.emit("assign %d E 0 %d" % (x, near(3)))
+        else:
+            lo = near(3); hi = lo + rng.choice([0, 1, 2, 3, 5])
+            B.emit("havoc %d" % x); B.emit("assume %s" % _ge(x, lo)); B.emit("assume %s" % _le(x, hi))
+
+    def call_text(g, lhs, args):
+        return ("call %d %d %s%d %s" % (g, len(lhs), "".join("%d " % v for v in lhs), len(args),
+                                       " ".join("%d" % v for v in args))).strip()
+
+    funcs = []
+    for f in range(nf):
+        ins, outs = sigs[f]
+        B = _FB(ins, outs)
+        writable = [v for v in range(nv) if v not in ins]
+        callees = list(range(1, nf)) if recursive else list(range(f + 1, nf))
+
+        def do_call(g, argvar=None, unreachable=False):
+            """emit (arg setup), a call of g, and possibly an assertion on its result; returns the lhs list"""
+            gin, gout = sigs[g]
+            if len(writable) < max(1, len(gout)):
+                return None
+            lhs = rng.sample(writable, len(gout))
+            args = []
+            for i in range(len(gin)):
+                if i == 0 and argvar is not None:
+                    args.append(argvar)
+                    continue
+                cand = [v for v in writable if v not in lhs] or writable
+                x = rng.choice(cand)
+                set_arg(B, x, src=(ins[0] if ins and rng.random() < 0.5 else None))
+                args.append(x)
+            if unreachable:
+                x = args[0] if args else rng.choice(writable)
+                r = rng.random()
+                if r < 0.4:
+                    B.emit("assume %s" % _le(x, K)); B.emit("assume %s" % _ge(x, K + 1))
+                elif r < 0.7 and x in writable:
+                    B.emit("assign %d E 0 %d" % (x, K)); B.emit("assume %s" % _ge(x, K + rng.choice([1, 2])))
+                else:
+                    B.emit("unreachable")
+            B.emit(call_text(g, lhs, args))
+            if lhs and rng.random() < 0.65:
+                B.emit(rand_assert(lhs[0], others=args))
+                if rng.random() < 0.4:
+                    after_assert(B, lhs[0], writable)
+            return lhs
+
+        def episode(depth):
+            """one use of a callee by this function"""
+            if not callees:
+                return
+            g = rng.choice(callees) if rng.random() < 0.3 else callees[0] if rng.random() < 0.6 else rng.choice(callees)
+            shape = rng.choices(["plain", "plain", "diamond", "loop", "dead", "afterfail"], [5, 3, 2, 2 if depth == 0 else 0, 1.5, 0.7])[0]
+            if shape == "plain":
+                if rng.random() < 0.3:
+                    B.seq()
+                do_call(g)
+            elif shape == "diamond":
+                x = rng.choice(writable)
+                c = near()
+                if rng.random() < 0.5:
+                    set_arg(B, x)
+                cur = B.cur
+                t, e, j = B.new(), B.new(), B.new()
+                B.edges.extend([(cur, t), (cur, e), (t, j), (e, j)])
+                B.cur = t; B.emit("assume %s" % _le(x, c))
+                if rng.random() < 0.8: do_call(g, argvar=x if rng.random() < 0.6 else None)
+                B.cur = e; B.emit("assume %s" % _ge(x, c + 1))
+                if rng.random() < 0.6: do_call(g, argvar=x if rng.random() < 0.6 else None)
+                B.cur = j
+                if rng.random() < 0.4:
+                    B.emit(rand_assert(rng.choice(writable)))
+            elif shape == "loop":
+                x = rng.choice(writable)
+                lo = near(1); hi = lo + rng.choice([1, 2, 3, 4])
+                B.emit("assign %d E 0 %d" % (x, lo))
+                cur = B.cur
+                h, body, ex = B.new(), B.new(), B.new()
+                B.edges.extend([(cur, h), (h, body), (h, ex), (body, h)])
+                B.cur = body; B.emit("assume %s" % _le(x, hi - 1))
+                n0 = len(B.blocks[body])
+                do_call(g, argvar=x)
+                B.blocks[body][n0:] = [s for s in B.blocks[body][n0:] if not writes(s, x) and not s.startswith("assume")]
+                B.emit("arith add %d %d k %d" % (x, x, rng.choice([1, 1, 2])))
+                B.cur = ex; B.emit("assume %s" % _ge(x, hi))
+                if rng.random() < 0.5:
+                    B.emit(rand_assert(x))
+            elif shape == "dead":
+                if rng.random() < 0.5:
+                    # dead branch of a diamond
+                    x = rng.choice(writable); c = near()
+                    B.emit("assign %d E 0 %d" % (x, c))
+                    cur = B.cur
+                    t, e, j = B.new(), B.new(), B.new()
+                    B.edges.extend([(cur, t), (cur, e), (t, j), (e, j)])
+                    B.cur = t; B.emit("assume %s" % _ge(x, c + 1)); do_call(g, argvar=x if rng.random() < 0.5 else None)
+                    B.cur = e; B.emit("assume %s" % _le(x, c))
+                    B.cur = j
+                else:
+                    # everything after the dead call is dead too: keep it in a block without successors
+                    cur = B.cur
+                    d = B.new(); B.edges.append((cur, d)); n = B.new(); B.edges.append((cur, n))
+                    B.cur = d; do_call(g, unreachable=True)
+                    B.cur = n
+            else:
+                x = rng.choice(writable)
+                c = near()
+                B.emit("assign %d E 0 %d" % (x, c))
+                ids[0] += 1
+                B.emit("assert %s %d" % (rng.choice([_le(x, c - 1), _ge(x, c + 1), _ne(x, c)]), ids[0]))
+                do_call(g, argvar=x if rng.random() < 0.5 else None)
+
+        if f == 0:
+            for _ in range(rng.randint(2, 5)):
+                episode(0)
+                if rng.random() < 0.15:
+                    B.emit(safe_stmt(rng, nv, ins))
+        else:
+            a = ins[0]
+            loc = [v for v in writable if v not in outs] or writable
+            if recursive and rng.random() < 0.7:
+                # terminating recursion on the first input
+                cur = B.cur
+                base, rec, j = B.new(), B.new(), B.new()
+                B.edges.extend([(cur, base), (cur, rec), (base, j), (rec, j)])
+                if rng.random() < 0.4:
+                    B.emit(rand_assert(a))
+                B.cur = base; B.emit("assume %s" % _le(a, 0))
+                if rng.random() < 0.5:
+                    B.emit(rand_assert(a))
+                for o in outs:
+                    B.emit("assign %d E 0 %d" % (o, near()))
+                B.cur = rec; B.emit("assume %s" % _ge(a, 1))
+                t = rng.choice(loc)
+                B.emit("arith sub %d %d k 1" % (t, a))
+                g = rng.choice([f, f, (f % (nf - 1)) + 1, rng.randrange(1, nf)])
+                if rng.random() < 0.4:
+                    B.emit(rand_assert(t, others=[a]))
+                do_call(g, argvar=t)
+                for o in outs:
+                    if rng.random() < 0.7:
+                        B.emit(rng.choice(["arith add %d %d k 1" % (o, o), "assign %d E 1 1 %d 0" % (o, a), "assign %d E 0 %d" % (o, near())]))
+                B.cur = j
+            else:
+                segs = rng.sample(["guard", "branch", "inner", "loop"], rng.randint(1, 3))
+                for sg in ["guard", "branch", "inner", "loop"]:
+                    if sg not in segs:
+                        continue
+                    if sg == "guard":
+                        x = a if rng.random() < 0.8 else rng.choice(ins)
+                        B.emit(rand_assert(x, others=ins))
+                        if rng.random() < 0.5:
+                            after_assert(B, x, writable)
+                    elif sg == "branch":
+                        c = near()
+                        cur = B.cur
+                        t, e, j = B.new(), B.new(), B.new()
+                        B.edges.extend([(cur, t), (cur, e), (t, j), (e, j)])
+                        B.cur = t; B.emit("assume %s" % _le(a, c))
+                        r = rng.random()
+                        if r < 0.5:
+                            B.emit(rand_assert(a))
+                            if rng.random() < 0.3: after_assert(B, a, writable)
+                        elif r < 0.8 and callees:
+                            do_call(rng.choice(callees), argvar=a if rng.random() < 0.6 else None)
+                        B.cur = e; B.emit("assume %s" % _ge(a, c + 1))
+                        r = rng.random()
+                        if r < 0.35:
+                            B.emit(rand_assert(a))
+                        elif r < 0.5 and callees:
+                            do_call(rng.choice(callees), argvar=a if rng.random() < 0.6 else None)
+                        elif r < 0.6:
+                            ids[0] += 1
+                            B.emit("assert %s %d" % (_le(a, c), ids[0]))     # false whenever reached
+                        B.cur = j
+                    elif sg == "inner" and callees:
+                        if rng.random() < 0.5:
+                            t = rng.choice(loc)
+                            B.emit("arith add %d %d k %d" % (t, a, rng.choice([1, -1, 2, 0])))
+                            do_call(rng.choice(callees), argvar=t)
+                        else:
+                            do_call(rng.choice(callees), argvar=a)
+                    elif sg == "loop":
+                        t = rng.choice(loc)
+                        hi = rng.choice([1, 2, 3, 5])
+                        B.emit("assign %d E 0 0" % t)
+                        cur = B.cur
+                        h, body, ex = B.new(), B.new(), B.new()
+                        B.edges.extend([(cur, h), (h, body), (h, ex), (body, h)])
+                        B.cur = body; B.emit("assume %s" % _le(t, hi - 1))
+                        if callees and rng.random() < 0.4:
+                            n0 = len(B.blocks[body])
+                            do_call(rng.choice(callees), argvar=t)
+                            B.blocks[body][n0:] = [s for s in B.blocks[body][n0:] if not writes(s, t) and not s.startswith("assume")]
+                        B.emit("arith add %d %d k 1" % (t, t))
+                        B.cur = ex; B.emit("assume %s" % _ge(t, hi))
+                        if rng.random() < 0.6:
+                            B.emit(rand_assert(t, others=[a]))
+                for o in outs:
+                    r = rng.random()
+                    if r < 0.4:
+                        B.emit("arith add %d %d k %d" % (o, a, rng.choice([0, 1, -1, 2, -2])))
+                    elif r < 0.6:
+                        B.emit("select %d %s E 0 %d E 1 1 %d 0" % (o, _le(a, near()), near(), a))
+                    elif r < 0.75:
+                        B.emit("assign %d E 0 %d" % (o, near()))
+                    elif r < 0.9:
+                        B.emit(safe_stmt_to(rng, nv, o))
+                    if rng.random() < 0.25:
+                        B.emit(rand_assert(o, others=ins))
+                        if rng.random() < 0.4:
+                            after_assert(B, o, writable)
+        # a block never ends with a call's argument setup only; the current block is the exit
+        ex = B.cur if rng.random() < 0.96 else -1
+        funcs.append(dict(ins=ins, outs=outs, blocks=B.blocks, edges=B.edges, exit=ex))
+    return nv, funcs, ids[0]
+
+
+CORPUS_VERD = [
+    # one callee, two calling contexts: the first proves the assertion, the second does not (and the reverse order)
+    "inter 2 4 nasserts=2 | F 0 1 0 I 0 O 0 | F 1 1 0 I 1 0 O 1 1 | B 0 0 assign 2 E 0 0 ; call 1 1 3 1 2 ; assign 2 E 0 7 ; call 1 1 3 1 2 ; assert C le E 1 1 3 -5 2 | B 1 0 assert C le E 1 1 0 -3 1 ; arith add 1 0 k 1",
+    "inter 2 4 nasserts=2 | F 0 1 0 I 0 O 0 | F 1 1 0 I 1 0 O 1 1 | B 0 0 assign 2 E 0 7 ; call 1 1 3 1 2 ; assign 2 E 0 0 ; call 1 1 3 1 2 ; assert C le E 1 1 3 -5 2 | B 1 0 assert C ne E 1 1 0 -7 1 ; arith add 1 0 k 1",
+    # the callee's assertion holds in both contexts; the assertion on the returned value only after the first call
+    "inter 2 4 nasserts=3 | F 0 1 0 I 0 O 0 | F 1 1 0 I 1 0 O 1 1 | B 0 0 assign 2 E 0 1 ; call 1 1 3 1 2 ; assert C le E 1 1 3 -2 2 ; assign 2 E 0 4 ; call 1 1 3 1 2 ; assert C le E 1 1 3 -2 3 | B 1 0 assert C le E 1 -1 0 0 1 ; arith add 1 0 k 1",
+    # the assertion is false on the entry invariant of its block and the block goes on to establish it
+    "inter 2 3 nasserts=2 | F 0 1 0 I 0 O 0 | F 1 1 0 I 1 0 O 1 1 | B 0 0 assign 2 E 0 5 ; call 1 1 2 1 2 ; assert C eq E 1 1 2 0 2 ; assign 2 E 0 0 | B 1 0 assert C le E 1 1 0 0 1 ; assign 1 E 0 0",
+    # assertion in a branch of the callee taken only by the second call; unreachable third callsite
+    "inter 2 4 nasserts=2 | F 0 3 -1 I 0 O 0 | F 1 4 3 I 1 0 O 1 1 | B 0 0 assign 2 E 0 0 ; call 1 1 3 1 2 ; assign 2 E 0 9 ; call 1 1 3 1 2 | B 0 1 assume C le E 1 1 2 0 ; call 1 1 3 1 2 | E 0 0 1 0 2 | B 1 0 assign 1 E 0 0 | B 1 1 assume C le E 1 1 0 -5 | B 1 2 assume C le E 1 -1 0 6 ; assert C le E 1 1 0 -8 1 ; assign 1 E 0 1 | B 1 3 assert C le E 1 1 1 -1 2 | E 1 0 1 0 2 1 3 2 3",
+    # chain main -> f1 -> f2 with f2 also called directly from main with another argument
+    "inter 3 5 nasserts=2 | F 0 1 0 I 0 O 0 | F 1 1 0 I 1 0 O 1 1 | F 2 1 0 I 1 2 O 1 3 | B 0 0 assign 4 E 0 1 ; call 1 1 1 1 4 ; assign 4 E 0 6 ; call 2 1 1 1 4 ; assert C le E 1 1 1 -4 2 | B 1 0 arith add 4 0 k 1 ; call 2 1 1 1 4 | B 2 0 assert C le E 1 1 2 -3 1 ; arith add 3 2 k 1",
+    # recursion: the assertion holds for the outer call and fails in the recursive ones
+    "inter 2 4 nasserts=1 | F 0 1 0 I 0 O 0 | F 1 4 3 I 1 0 O 1 1 | B 0 0 assign 2 E 0 3 ; call 1 1 3 1 2 | B 1 0 assert C le E 1 -1 0 3 1 | B 1 1 assume C le E 1 1 0 0 ; assign 1 E 0 0 | B 1 2 assume C le E 1 -1 0 1 ; arith sub 2 0 k 1 ; call 1 1 1 1 2 ; arith add 1 1 k 1 | E 1 0 1 0 2 1 3 2 3",
+]
+
+
+def gen_verdicts(seed, tier, n=None):
+    """stream inter-verdicts-oracle of C02: programs with assertions x analyzer (top-down with the interleaved
+    checker / bottom-up with inter_checker) x every parameter of the harness"""
+    rng = random.Random(seed)
+    n = n or (300 if tier == "quick" else 8000)
+    lines = []
+    for c in CORPUS_VERD:
+        for o in ([("an", "td")], [("an", "td"), ("rec", 1)], [("an", "td"), ("mcc", 1)], [("an", "td"), ("exact", 0)],
+                  [("an", "bu")], [("an", "bu"), ("props", "divzero+assert")], [("an", "bu"), ("props", "assert+divzero")]):
+            lines.append(with_opts(c, o + [("verd", 1)]))
+    while len(lines) < n:
+        recursive = rng.random() < 0.3
+        if rng.random() < 0.8:
+            nv, funcs, na = gen_vprogram(rng, recursive=recursive)
+        else:
+            # the statement mix of C09/C10 with assertions sprinkled over the blocks
+            nv, funcs = gen_iprogram(rng, recursive=recursive)
+            na = 0
+            for F in funcs:
+                for b in F["blocks"]:
+                    if rng.random() < 0.3:
+                        na += 1
+                        c = gen_cst(rng, nv, kinds=("le", "le", "eq", "ne", "lt"), small=True, maxterms=2)
+                        b.insert(rng.randint(0, len(b)), "assert %s %d" % (fmt_cst(c), na))
+        if na == 0:
+            continue
+        an = rng.choice(["td", "td", "td", "bu", "bu"])
+        o = [("an", an), ("delay", rng.choice([0, 1, 2, 2, 3])), ("desc", rng.choice([0, 1, 2, 2, 3]))]
+        if an == "td":
+            o.append(("exact", rng.choice([0, 1, 1])))
+            o.append(("rec", rng.choice([0, 1])))
+            if rng.random() < 0.25:
+                o.append(("mcc", rng.choice([0, 1, 1, 2, 3])))
+            if rng.random() < 0.15:
+                o.append(("thr", rng.choice([5, 20])))
+        else:
+            o.append(("props", rng.choice(["assert", "divzero+assert", "assert+divzero"])))
+            if rng.random() < 0.2:
+                o.append(("budom", "zones"))
+        o += [("verd", 1), ("nasserts", na)]
+        init = rand_init(rng, nv)
+        if an == "bu" and init is not None:
+            called = set(int(st.split()[1]) for F in funcs for b in F["blocks"] for st in b if st.startswith("call "))
+            if len([f for f in range(len(funcs)) if f not in called]) != 1:
+                init = None
+        lines.append(fmt_iprogram(nv, funcs, o, init))
+    return lines
+
+
+def program_constants(P):
+    """integers that occur in the program text (thresholds of the conditions, assigned constants, operands)"""
+    cs = set()
+
+    def exp(e):
+        cs.add(e[1]); cs.add(-e[1])
+    for F in P["funcs"]:
+        for b in F["blocks"]:
+            for st in b:
+                k = st[0]
+                if k == "assign": exp(st[2])
+                elif k in ("arith", "bit"):
+                    if st[4] == "k": cs.add(st[5])
+                elif k in ("assume", "assert"): exp(st[1][1])
+                elif k == "select": exp(st[2][1]); exp(st[3]); exp(st[4])
+    for c in P["init"]:
+        exp(c[1])
+    return cs
+
+
+def verdict_runs(P, rng, claims, nruns=200, maxsteps=300, maxdepth=12):
+    """random executions from the entry functions, every source of non-determinism (initial store, the callee's
+    non-parameter variables, havoc, successor, returning at an exit block that has successors, entry function)
+    sampled from a pool that is dense around the constants of the program.  claims: {id: 'safe'|'unreach'} are the
+    assertion ids whose verdict list makes a claim; returns None or (id, kind, store, function, block, trace) for
+    the first execution that refutes a claim (kind = 'violated' | 'reached')."""
+    pool = set(POOL)
+    for c in program_constants(P):
+        if abs(c) <= 10 ** 6:
+            pool.update((c - 1, c, c + 1))
+    pool = sorted(pool)
+    near0 = [v for v in pool if abs(v) <= 20] or pool
+    succ = []
+    for F in P["funcs"]:
+        d = {}
+        for a, b in F["edges"]:
+            d.setdefault(a, [])
+            if b not in d[a]:
+                d[a].append(b)
+        succ.append(d)
+    es = entries(P)
+
+    def pick():
+        return rng.choice(near0) if rng.random() < 0.7 else rng.choice(pool)
+
+    def enabled(f, b, s):
+        for st in P["funcs"][f]["blocks"][b]:
+            if st[0] != "assume":
+                return True
+            if not holds(st[1], s):
+                return False
+        return True
+
+    for _ in range(nruns):
+        s = [pick() for _ in range(P["nv"])]
+        for _try in range(60):
+            if all(holds(c, s) for c in P["init"]):
+                break
+            s = [rng.randint(-10, 10) if _try % 2 else pick() for _ in range(P["nv"])]
+        if not all(holds(c, s) for c in P["init"]):
+            continue
+        f0 = rng.choice(es)
+        trace = ["start %s with store %s" % ("main" if f0 == 0 else "f%d" % f0, s)]
+        stack = [Frame(f0, s, None)]
+        steps = 0
+        while stack and steps < maxsteps:
+            steps += 1
+            fr = stack[-1]
+            F = P["funcs"][fr.f]
+            blk = F["blocks"][fr.b]
+            if fr.pc < len(blk):
+                st = blk[fr.pc]
+                k = st[0]
+                if k == "call":
+                    _, g, outs, ins = st
+                    if len(stack) >= maxdepth:
+                        break
+                    G = P["funcs"][g]
+                    cs = [pick() for _ in range(P["nv"])]
+                    for fo, ac in zip(G["ins"], ins):
+                        cs[fo] = fr.s[ac]
+                    trace.append("f%d:b%d calls f%d(%s), callee store %s" % (fr.f, fr.b, g, ",".join(str(fr.s[a]) for a in ins), cs))
+                    stack.append(Frame(g, cs, outs))
+                    continue
+                if k == "assert":
+                    ok = holds(st[1], fr.s)
+                    cl = claims.get(st[2])
+                    if cl == "unreach" or (cl == "safe" and not ok):
+                        return (st[2], "reached" if cl == "unreach" else "violated", list(fr.s), fr.f, fr.b, trace)
+                    if not ok:
+                        break
+                    fr.pc += 1
+                    continue
+                if k == "havoc":
+                    s2 = list(fr.s); s2[st[1]] = pick(); fr.s = s2
+                    trace.append("f%d:b%d havoc v%d := %d" % (fr.f, fr.b, st[1], s2[st[1]]))
+                    fr.pc += 1
+                    continue
+                r = exec_stmt(st, fr.s, rng)
+                if r[0] != "ok":
+                    break
+                fr.s = r[1]
+                fr.pc += 1
+                continue
+            nxt = succ[fr.f].get(fr.b, [])
+            if fr.b == F["exit"] and (not nxt or rng.random() < 0.7):
+                stack.pop()
+                if not stack:
+                    break
+                caller = stack[-1]
+                s2 = list(caller.s)
+                for o, fo in zip(fr.ret, F["outs"]):
+                    s2[o] = fr.s[fo]
+                caller.s = s2
+                caller.pc += 1
+                trace.append("f%d returns (%s) to f%d" % (fr.f, ",".join(str(fr.s[fo]) for fo in F["outs"]), caller.f))
+                continue
+            if not nxt:
+                break
+            en = [n for n in nxt if enabled(fr.f, n, fr.s)]
+            fr.b = rng.choice(en or nxt)
+            fr.pc = 0
+            trace.append("f%d:b%d" % (fr.f, fr.b))
+    return None
+
+
+def split_verdicts(ans):
+    """-> (answer without the checks, {id: letters or '-'}) or (ans, None)"""
+    if " ; checks=" not in ans:
+        return ans, None
+    a, c = ans.rsplit(" ; checks=", 1)
+    V = {}
+    i = 1
+    for part in c.replace("-", "-,").split(","):
+        part = part.strip()
+        if part:
+            V[i] = part
+            i += 1
+    return a, V
+
+
+def verdict_claims(V):
+    """ids whose list makes a claim: no W/E in a non-empty list -> 'safe' (some S) or 'unreach' (U only)"""
+    cl = {}
+    for i, L in V.items():
+        if L == "-" or "W" in L or "E" in L:
+            continue
+        cl[i] = "unreach" if set(L) == {"U"} else "safe"
+    return cl
+
+
+def oracle_verdicts(line, ans, rng=None, nruns=200):
+    """C02 for the inter-procedural analyzers: see the comment at the top of this section"""
+    if ans in ("ABORT", "MISSING", "TIMEOUT") or ans.startswith("HARNESS") or "HARNESS-ERROR" in ans:
+        return "%s: the analysis with the assertion checker aborted (%s)" % (line, ans[:40])
+    _, V = split_verdicts(ans)
+    if V is None:
+        return None
+    claims = verdict_claims(V)
+    if not claims:
+        return None
+    P = parse(line)
+    r0 = random.Random(zlib.crc32(line.encode()) ^ 0xc02)
+    w = verdict_runs(P, r0, claims, nruns=nruns)
+    if not w:
+        return None
+    i, kind, s, f, b, trace = w
+    where = "assertion %d (function %d, block b%d)" % (i, f, b)
+    if kind == "reached":
+        txt = "%s has the verdict list '%s' (unreachable in every checked context) but an execution reaches it with store %s" % (where, V[i], s)
+    else:
+        txt = ("%s has the verdict list '%s' (no warning/error in any checked context) but an execution reaches it with store %s, "
+               "where its condition is false" % (where, V[i], s))
+    return "%s: %s; the execution: %s" % (line, txt, " -> ".join(trace[-40:]))
+
+
+def nontrivial_verdicts(line, ans):
+    """rule: at least one assertion has an S or a U in its verdict list"""
+    _, V = split_verdicts(ans)
+    return bool(V) and any(("S" in L or "U" in L) for L in V.values())
